@@ -289,6 +289,8 @@ void kernels(sink& out)
     int kmod2 = add_inst(out, ev("Inst").str("kind", "NtKernel").str("op", "mixed_mod_fine_coarse").num("exp", -8).raw("lt", ty<std::int32_t>()).raw("rt", ty<std::int32_t>()));
     int kmod3 = add_inst(out, ev("Inst").str("kind", "NtKernel").str("op", "int_mod_scaled").num("exp", 0).raw("lt", ty<std::int32_t>()).raw("rt", ty<std::int32_t>()));
     int kmod4 = add_inst(out, ev("Inst").str("kind", "NtKernel").str("op", "mixed_modassign").num("exp", -4).raw("lt", ty<std::int32_t>()).raw("rt", ty<std::int32_t>()));
+    // round 10: unary minus of a scaled_integer over an unsigned elastic representation that fills its storage word
+    int kneg = add_inst(out, ev("Inst").str("kind", "NtKernel").str("op", "neg_elastic_unsigned").num("exp", -8).raw("lt", ty<std::uint32_t>()).raw("rt", ty<std::uint32_t>()));
     int kdiv1 = add_inst(out, ev("Inst").str("kind", "NtKernel").str("op", "mixed_div_coarse_fine").num("exp", 4).raw("lt", ty<std::int32_t>()).raw("rt", ty<std::int32_t>()));
     auto mask = [](bool lt, bool le, bool gt, bool ge, bool eq, bool ne) {
         return static_cast<std::int32_t>(lt * 1 + le * 2 + gt * 4 + ge * 8 + eq * 16 + ne * 32);
@@ -354,6 +356,19 @@ void kernels(sink& out)
                 std::int32_t r2 = mask(bb < a, bb <= a, bb > a, bb >= a, bb == a, bb != a);
                 out.put(ev("NtKernel").num("i", kc1).raw("l", enc(a)).raw("r", enc(b)).raw("wres", enc(m1)).num("wexp", 0).raw("bres", enc(r1)).str("wout", wo).s);
                 out.put(ev("NtKernel").num("i", kc2).raw("l", enc(a)).raw("r", enc(b)).raw("wres", enc(m2)).num("wexp", 0).raw("bres", enc(r2)).str("wout", wo).s);
+            }
+            {
+                using EU = cnl::scaled_integer<cnl::elastic_integer<32, unsigned>, cnl::power<-8>>;
+                std::uint32_t ua = static_cast<std::uint32_t>(a);
+                std::int64_t res = 0;
+                int ex = 0;
+                auto wo = guarded([&] {
+                    auto s2 = -cnl::_impl::from_rep<EU>(cnl::elastic_integer<32, unsigned>{ua});
+                    res = static_cast<std::int64_t>(cnl::unwrap(s2));
+                    ex = cnl::_impl::tag_of_t<decltype(s2)>::exponent;
+                });
+                out.put(ev("NtKernel").num("i", kneg).raw("l", enc(ua)).raw("r", enc(ua)).raw("wres", enc(res)).num("wexp", ex)
+                                .raw("bres", enc(-static_cast<std::int64_t>(ua))).str("wout", wo).s);
             }
             if (a != 0 && !(b == INT32_MIN && a == -1)) {
                 using P8 = cnl::scaled_integer<std::int32_t, cnl::power<-8>>;
